@@ -5,11 +5,14 @@
     (the stored copy of the last sample, whose keys stay the arm list); every other field - statistics, status,
     arms, configuration, fitted flag - is identical (Leibniz equality).  For neighbourhood policies the model's
     imp_query returns the implementation state unchanged by construction (the worker copies are discarded).
-    ..._partial: that no later call reads Thompson's stored sample is proved for fit (CFForget) and for the
-    query itself (NbrIndep.ts_predict_exp_mod_exp); the full "every later sequence of calls" statement is
-    checked by the queried-versus-unqueried twin relation on the implementation. *)
-From Coq Require Import List ZArith Bool Arith QArith Qcanon.
-From MW Require Import Num Assoc AssocFacts Rng Par CF CFInv CFClean CFForget CFSpec Matrix Lin Warm WarmInv Nbr NbrFacts NbrIndep Clu Tree Mab FacadeCF FacadeArms NumLaws QcInst.
+    Thompson's stored sample is never read: two context-free bandits that differ only in it (and agree on the
+    generator) return equal results and stay so related under EVERY continuation of facade calls (run_sim) -
+    together with the first theorem this is the property's "indistinguishable under every later sequence of calls"
+    for context-free bandits, modulo the generator position.
+    ..._partial: linear / neighbourhood / cluster / tree states are compared with the implementation by the
+    queried-versus-unqueried twin relation. *)
+From Coq Require Import List ZArith Bool Arith QArith Qcanon Permutation.
+From MW Require Import Num Assoc AssocFacts Rng Par CF CFInv CFClean CFForget CFSpec Matrix Lin Warm WarmInv Nbr NbrFacts NbrIndep LshFacts Clu Tree CellFacts Mab FacadeCF FacadeArms MoreFacts NumLaws CFAlg Sim Extra QcInst OrderFacts ExpIrrel LinInv FacadeLin LpInv NbrInv CluTreeInv FacadeAll ToyFacts.
 Import ListNotations.
 
 Theorem C10_query_changes_only_generator_and_last_sample_partial :
@@ -26,5 +29,27 @@ Theorem C10_query_changes_only_generator_and_last_sample_partial :
     akeys (c_exp s') = c_arms s /\ m_fitted (fst (step N aeqb RG m o)) = m_fitted m.
 Proof. exact @query_keeps_model. Qed.
 Print Assumptions C10_query_changes_only_generator_and_last_sample_partial.
+
+Theorem C10_last_sample_is_never_read_one_call :
+  forall (R A G : Type) (N : Num R) (aeqb : A -> A -> bool) (RG : RngOps R G) (m m' : (@mab R A G)) (o : (@op R A)),
+  msim m m' ->
+  snd (step N aeqb RG m o) = snd (step N aeqb RG m' o) /\
+  msim (fst (step N aeqb RG m o)) (fst (step N aeqb RG m' o)).
+Proof. exact @step_sim. Qed.
+Print Assumptions C10_last_sample_is_never_read_one_call.
+
+Theorem C10_last_sample_is_never_read_any_continuation :
+  forall (R A G : Type) (N : Num R) (aeqb : A -> A -> bool) (RG : RngOps R G) 
+    (ops : list (@op R A)) (m m' : (@mab R A G)), msim m m' -> snd (run N aeqb RG m ops) = snd (run N aeqb RG m' ops).
+Proof. exact @run_sim. Qed.
+Print Assumptions C10_last_sample_is_never_read_any_continuation.
+
+Theorem C10_queries_keep_the_invariant_all_policies :
+  forall (R A G : Type) (N : Num R) (aeqb : A -> A -> bool) (RG : RngOps R G),
+  (forall x y : A, aeqb x y = true <-> x = y) ->
+  forall (m : (@mab R A G)) (o : (@op R A)),
+  rng_lengths_ok RG -> imp_inv (m_imp m) -> imp_inv (m_imp (fst (step N aeqb RG m o))).
+Proof. exact @step_preserves_imp_inv. Qed.
+Print Assumptions C10_queries_keep_the_invariant_all_policies.
 
 
